@@ -7,6 +7,7 @@ from ..axes import Arr, Case, DataArrayVal, Leaf, Op, Polygons, Top, fix, leaves
 from ..cfg import stmt_of
 from ..linear import Lin, const, symbol
 from ..model import AnalysisError, const_value, dotted, kwarg, norm_text, walk_no_nested
+from ..effects import roots_of
 from ..report import Context
 from .c02 import polygon_builder_facts
 from .common import arg_or_kw, calls_in, callee, enclosing_ifs, is_none, method_calls
@@ -106,7 +107,10 @@ def run(ctx: Context) -> None:
         ctx.check('R06.2', ok, "UGRID points are (node_x[n], node_y[n]) for a face's nodes in listed order", ug, sp[0], construct=f"coords = {detail[:120]}")
         from ..pattern import Matcher
         m = Matcher(ctx, ug)
-        size_st = m.stmt('$sizes = numpy.sum(~numpy.ma.getmaskarray($face_node), axis=1)')
+        size_st = m.stmt('$sizes = numpy.sum(~numpy.ma.getmaskarray($face_node), axis=1)') or \
+            m.stmt('$sizes = numpy.count_nonzero(~numpy.ma.getmaskarray($face_node), axis=1)') or \
+            m.stmt('$sizes = (~numpy.ma.getmaskarray($face_node)).sum(axis=1)') or \
+            m.stmt('$sizes = numpy.ma.count($face_node, axis=1)')
         fn_uses = [n for n in ast.walk(ug.node) if isinstance(n, ast.Name) and n.id == m.name('face_node') and isinstance(n.ctx, ast.Load)] if size_st is not None else []
         # the table the sizes are counted on and the rows are gathered from is the normalised face-node table itself,
         # unfiltered (a filtered copy has other row numbers than the output array)
@@ -190,10 +194,46 @@ def run(ctx: Context) -> None:
         # (the two coordinates of one grid need not agree on it)
         from ..pattern import Matcher as _M2
         m2 = _M2(ctx, b2)
-        tr = m2.stmt('$c = $c.transpose(self.y_dimension, self.x_dimension)') or m2.stmt('$c2 = $c.transpose(self.y_dimension, self.x_dimension)')
-        reads = [n for n in ast.walk(b2.node) if isinstance(n, ast.Attribute) and n.attr in ('values', 'data', 'to_numpy')
-                 and flow2.canon(n.value) == ('param', b2.params[1])]
-        ok_tr = tr is not None and m2.name('c') == b2.params[1] and not reads and bool(getattr(it2, 'named_transposes', []))
+        # every read of the coordinate's values goes through `.transpose(self.y_dimension, self.x_dimension)`, whatever aliases lie between
+        def through_transpose(e, depth=8):
+            """'yes' / 'no' / '?': does expression e (the owner of a .values read) derive from the parameter through the named transpose?"""
+            while depth > 0:
+                depth -= 1
+                if isinstance(e, ast.Name):
+                    if flow2.canon(e) == ('param', b2.params[1]):
+                        return 'no'
+                    d_ = flow2.single_def(e)
+                    if d_ is None or d_.value is None:
+                        return '?'
+                    e = d_.value
+                    continue
+                if isinstance(e, ast.Call) and isinstance(e.func, ast.Attribute) and e.func.attr == 'transpose':
+                    names = [norm_text(a) for a in e.args]
+                    if names == ['self.y_dimension', 'self.x_dimension']:
+                        inner = e.func.value
+                        # the receiver must be the parameter (or an alias of it)
+                        r_ = inner
+                        for _ in range(6):
+                            if isinstance(r_, ast.Name) and flow2.canon(r_) == ('param', b2.params[1]):
+                                return 'yes'
+                            if isinstance(r_, ast.Name):
+                                d2 = flow2.single_def(r_)
+                                if d2 is None or d2.value is None:
+                                    break
+                                r_ = d2.value
+                                continue
+                            break
+                        return '?'
+                    return 'no'
+                return '?'
+            return '?'
+        value_reads = [n for n in ast.walk(b2.node) if isinstance(n, ast.Attribute) and n.attr in ('values', 'data', 'to_numpy') and isinstance(n.value, ast.Name)
+                       and ('param:' + b2.params[1]) in roots_of(flow2, n.value)]
+        verdicts = [through_transpose(n.value) for n in value_reads]
+        reads = [n for n, v in zip(value_reads, verdicts) if v != 'yes']
+        tr = next((n for n in ast.walk(b2.node) if isinstance(n, ast.Call) and isinstance(n.func, ast.Attribute) and n.func.attr == 'transpose'
+                   and [norm_text(a) for a in n.args] == ['self.y_dimension', 'self.x_dimension']), None)
+        ok_tr = tr is not None and bool(value_reads) and not reads and bool(getattr(it2, 'named_transposes', []))
         conv = None
         for alt in ('$vals = $c.values.astype(numpy.double)', '$vals = $c.values.astype(numpy.float64)', '$vals = $c.values.astype(float)',
                     '$vals = numpy.array($c.values, dtype=numpy.double)', '$vals = numpy.array($c.values, dtype=float)',
@@ -204,7 +244,7 @@ def run(ctx: Context) -> None:
                   construct=f"conversion: {norm_text(conv) if conv is not None else 'absent (the stored dtype is kept)'}")
         ctx.check('R06.3', ok_tr, "the centres of a coordinate are read in (y_dimension, x_dimension) order: the coordinate is transposed to those names before its values are taken "
                   "(latitude(y, x) with longitude(x, y) would otherwise pair the latitudes of one cell with the longitudes of another)", b2, tr or b2.node,
-                  construct=f"values read from the untransposed parameter: {[norm_text(n) for n in reads] or 'none'}; transposition: {norm_text(tr) if tr is not None else 'absent'}")
+                  construct=f"values read without the transposition: {[norm_text(n) for n in reads] or 'none'}; transposition: {norm_text(tr) if tr is not None else 'absent'}")
         val = it2.returns[0][1] if it2.returns else None
         ok_shape = ok_nb = ok_gray = False
         detail = 'no DataArray returned'
@@ -260,49 +300,94 @@ def run(ctx: Context) -> None:
                   construct=f"mean: {callee(ctx, b2, means[0]) if means else 'absent'}")
         # sandwiched cells and cells with nan corners
         from ..pattern import Matcher
-        # every `name = numpy.isnan(values)` of the function is a candidate for the missing-centre mask
-        masks = [(n.targets[0].id, n.value.args[0].id) for n in walk_no_nested(b2.node) if isinstance(n, ast.Assign) and isinstance(n.targets[0], ast.Name)
-                 and isinstance(n.value, ast.Call) and callee(ctx, b2, n.value) == 'numpy.isnan' and len(n.value.args) == 1 and isinstance(n.value.args[0], ast.Name)]
-        ok = False
-        sand_st = None
-        vals_name = None
-        for mname, vname in masks:
-            mb2 = Matcher(ctx, b2, bindings={'nan': mname, 'vals': vname})
-            if not mb2.has('$jp = numpy.pad($nan, ((1, 1), (0, 0)), constant_values=False)',
-                           '$ip = numpy.pad($nan, ((0, 0), (1, 1)), constant_values=False)'):
-                continue
-            for alt in ('$vals[$jp[:-2, :] & $jp[2:, :] | $ip[:, :-2] & $ip[:, 2:]] = numpy.nan',
-                        '$vals[$ip[:, :-2] & $ip[:, 2:] | $jp[:-2, :] & $jp[2:, :]] = numpy.nan',
-                        '$vals[$jp[:-2] & $jp[2:] | $ip[:, :-2] & $ip[:, 2:]] = numpy.nan'):
-                sand_st = sand_st or mb2.stmt(alt)
-            if sand_st is not None:
-                ok, vals_name = True, vname
-                break
-        ctx.check('R06.3', ok and sand_st is not None, "only a centre with missing neighbours on both sides of an axis is discarded", b2, sand_st or b2.node,
-                  construct=f"sandwich test: {norm_text(sand_st) if sand_st is not None else 'not recognised'}")
-        blank = None
-        own = False
-        for mname, vname in masks:
-            if vname != vals_name or blank is not None:
-                continue
-            mb3 = Matcher(ctx, b2, bindings={'nan': mname})
-            for alt in ('$cn = numpy.isnan($bounds).any(axis=2) | $nan', '$cn = numpy.isnan($bounds).any(axis=-1) | $nan',
-                        '$cn = $nan | numpy.isnan($bounds).any(axis=2)', '$cn = $nan | numpy.isnan($bounds).any(axis=-1)'):
-                if blank is None:
-                    blank = mb3.stmt(alt)
-                    own = blank is not None
-            if blank is not None:
-                mb2 = mb3
-        if blank is None:
-            mb2 = Matcher(ctx, b2)
-            for alt in ('$cn = numpy.isnan($bounds).any(axis=2)', '$cn = numpy.isnan($bounds).any(axis=-1)'):
-                blank = blank or mb2.stmt(alt)
-        ok = blank is not None and mb2.stmt('$bounds[$cn] = numpy.nan') is not None
-        ctx.check('R06.3', ok, "a cell with any missing corner gets no polygon (all four corners blanked)", b2, blank or b2.node,
-                  construct=f"blanking: {norm_text(blank) if blank is not None else 'absent'}")
-        ctx.check('R06.3', ok and own, "a cell whose own centre is missing gets no polygon either: its corners are means of the neighbours' centres, "
+        # NaN is stored into the centres / the bounds through boolean masks.  What matters is the set of masks, however they are
+        # combined (one `a | b` index, or one statement per mask) and whatever the intermediate names are: every mask is
+        # spelled out (locals expanded) and taken apart at `|`.
+        from .common import expand_locals
+
+        def spelled(e):
+            try:
+                return expand_locals(flow2, e, depth=8)
+            except Exception:
+                return e
+
+        def leaves_of(e):
+            e = spelled(e)
+            while isinstance(e, ast.Call) and (dotted(e.func) or '').rsplit('.', 1)[-1] == 'cast' and len(e.args) == 2:
+                e = spelled(e.args[1])
+            if isinstance(e, ast.BinOp) and isinstance(e.op, ast.BitOr):
+                return leaves_of(e.left) + leaves_of(e.right)
+            return [e]
+
+        def nan_stores(array_name):
+            out = []
+            for n in walk_no_nested(b2.node):
+                if isinstance(n, ast.Assign) and len(n.targets) == 1 and isinstance(n.targets[0], ast.Subscript) and isinstance(n.targets[0].value, ast.Name) \
+                        and n.targets[0].value.id == array_name and norm_text(n.value).endswith('nan'):
+                    out.append(n)
+            return out
+        vals_name = m2.name('vals') if conv is not None else None
+        centre_src = norm_text(spelled(conv.value)) if conv is not None else '?'
+        NANM = f"numpy.isnan({centre_src})"
+
+        def canon_mask(e):
+            """Text of a mask with the slices normalised (`x[:-2]` == `x[:-2, :]`)."""
+            t = norm_text(e).replace(' ', '')
+            return t.replace('[:-2]', '[:-2,:]').replace('[2:]', '[2:,:]')
+        JP = f"numpy.pad({NANM},((1,1),(0,0)),constant_values=False)".replace(' ', '')
+        IP = f"numpy.pad({NANM},((0,0),(1,1)),constant_values=False)".replace(' ', '')
+        want_sand = {f"{JP}[:-2,:]&{JP}[2:,:]", f"{IP}[:,:-2]&{IP}[:,2:]"}
+        alt_sand = {f"{JP}[2:,:]&{JP}[:-2,:]", f"{IP}[:,2:]&{IP}[:,:-2]"}
+        sand_stores = nan_stores(vals_name) if vals_name else []
+        got_sand = set()
+        for st_ in sand_stores:
+            for lf in leaves_of(st_.targets[0].slice):
+                t_ = canon_mask(lf).replace(NANM.replace(' ', ''), NANM.replace(' ', ''))
+                got_sand.add(t_)
+        norm_sand = {x if x in want_sand else {a: w for a, w in zip(sorted(alt_sand), sorted(want_sand))}.get(x, x) for x in got_sand}
+        ok = bool(sand_stores) and norm_sand == want_sand
+        sand_st = sand_stores[0] if sand_stores else None
+        ctx.check('R06.3', ok, "only a centre with missing neighbours on both sides of an axis is discarded (exactly the two sandwich masks, one per axis, built from the missing-centre mask padded with False)", b2,
+                  sand_st or b2.node, construct=f"masks stored as NaN into the centres: {sorted(x[-60:] for x in got_sand) or 'none'}")
+        # blanking of the bounds
+        bounds_name = None
+        for n in walk_no_nested(b2.node):
+            if isinstance(n, ast.Assign) and isinstance(n.value, ast.Call) and callee(ctx, b2, n.value) == 'numpy.stack' and isinstance(n.targets[0], ast.Name):
+                bounds_name = n.targets[0].id
+        b_stores = nan_stores(bounds_name) if bounds_name else []
+        got_b = set()
+        for st_ in b_stores:
+            for lf in leaves_of(st_.targets[0].slice):
+                got_b.add(norm_text(lf).replace(' ', ''))
+        any_nan = {f"numpy.isnan({bounds_name}).any(axis=2)", f"numpy.isnan({bounds_name}).any(axis=-1)"}
+        # the missing-centre mask must be the one taken BEFORE the sandwiched centres were discarded (it is: isnan of the converted values,
+        # computed by a statement that precedes the first NaN store) - any `name = numpy.isnan(vals)` defined before that store qualifies
+        own_masks = set()
+        first_store = min((st_.lineno for st_ in sand_stores), default=10 ** 9)
+        for n in walk_no_nested(b2.node):
+            if isinstance(n, ast.Assign) and isinstance(n.targets[0], ast.Name) and isinstance(n.value, ast.Call) and callee(ctx, b2, n.value) == 'numpy.isnan' \
+                    and len(n.value.args) == 1 and isinstance(n.value.args[0], ast.Name) and n.value.args[0].id == vals_name and n.lineno < first_store:
+                own_masks.add(n.targets[0].id)
+        raw_b = set()
+        for st_ in b_stores:
+            def raw_leaves(e):
+                if isinstance(e, ast.BinOp) and isinstance(e.op, ast.BitOr):
+                    return raw_leaves(e.left) + raw_leaves(e.right)
+                if isinstance(e, ast.Name) and e.id not in own_masks:
+                    d_ = flow2.single_def(e)
+                    if d_ is not None and d_.kind == 'assign' and d_.value is not None:
+                        return raw_leaves(d_.value)
+                return [e]
+            raw_b |= {norm_text(x).replace(' ', '') for x in raw_leaves(st_.targets[0].slice)}
+        has_any = bool(raw_b & any_nan)
+        own = bool(raw_b & own_masks)
+        extra_b = raw_b - any_nan - own_masks
+        blank = b_stores[0] if b_stores else None
+        ctx.check('R06.3', has_any and not extra_b, "a cell with any missing corner gets no polygon (all four corners blanked), and no other cell is blanked", b2, blank or b2.node,
+                  construct=f"masks stored as NaN into the bounds: {sorted(raw_b) or 'none'}")
+        ctx.check('R06.3', has_any and own, "a cell whose own centre is missing gets no polygon either: its corners are means of the neighbours' centres, "
                   "finite for a lone missing cell or a line of them one cell wide", b2, blank or b2.node,
-                  construct=f"blanking covers the missing-centre mask: {own}")
+                  construct=f"blanking covers the missing-centre mask: {own} (masks {sorted(raw_b)})")
         # make_polygons_with_holes skips rows with a non finite coordinate (R02.3 checks the pairing)
 
     # ------------------------------------------------------------------ R06.4 lookup namespace
